@@ -13,9 +13,10 @@ SCORES = ["spt", "fcfs", "mwkr", "mor"]
 
 class Check(PropertyCheck):
     ID = "C04"
-    LEAN_MODULE = "JobShopProofs.Properties.C04"
+    LEAN_MODULE = "JobShopProofs.ObserverScore"
     THEOREMS = ["JS.C04_terminates", "JS.C04_selected_available", "JS.C04_selected_best", "JS.C04_mwkr_agree",
-                "JS.C04_tiebreak_available", "JS.C04_tiebreak_lex", "JS.C04_elapsed_nonneg"]
+                "JS.C04_tiebreak_available", "JS.C04_tiebreak_lex", "JS.C04_elapsed_nonneg",
+                "JS.C04_observer_scores_world", "JS.C04_late_observers", "JS.C04_late_observers_stay", "JS.C04_late_observers_reached"]
     RULE = ("random instance (10 families incl. flexible, zero durations) x every built-in rule (5 direct rules, the "
             "observer-based MWKR, score_based_rule over 4 scoring functions, tie-breaker rules over random lists of scoring "
             "functions) x chooser (first, random) x filter configuration; DispatchingRuleSolver.solve run with the rule and "
